@@ -28,7 +28,7 @@ CLAIMED = {
             "numpy dtype inference / datetime64 override and IEEE scaling are third-party (scaling checked exactly by the harness)", "7 C03"),
     "C04": ("Lean theorem metadata: for EVERY leader file that parses, transform_metadata (record selection, the seven record pipelines, renames, attitude time fix-up) yields the frozen documented /metadata tree evaluated on the parsed record (any number of map-projection records, any attitude/facility lengths, any number n>=1 of attitude points and 1..16 channels); per-record theorems dataset_summary / radiometric_data / transformations / platform_position / map_projection (per designator class) / attitude (all n) / data_quality_summary; field_positions (golden offsets/widths/conversions of the fixed-size records), framing, numeric_text; layouts, pipeline configuration and step order regenerated from source; transformer correspondence (11 pipelines incl. whole leaders); field-by-field end-to-end oracle",
             "float()/IEEE scaling, strptime/timedelta of the first-point time and numpy timedelta arithmetic are contracts (evaluated exactly by the harness)", "7 C04"),
-    "C12": ("Lean theorems documented_trees_well_typed / image_group_well_typed (any n) / typing_is_shape_only, declared_shape (from pixel_fidelity), real_dtypes (re-read from source); oracle over dtype/shape/nbytes/repr/attribute types/selection shapes",
+    "C12": ("Lean theorems documented_trees_well_typed / image_group_well_typed (any n) / metadata_well_typed + leader_trees_well_typed (the whole documented /metadata tree, any counts and designator class) / typing_is_shape_only, declared_shape (from pixel_fidelity), real_dtypes (re-read from source); oracle over dtype/shape/nbytes/repr/attribute types/selection shapes",
             "numpy's dtype inference of python lists is third-party", "7 C12"),
     "C13": ("Lean theorems imagery_children (no image dropped or swapped when names are distinct), name_collision, group_names_injective, roles_independent_of_line_order (permutation invariance), metadata_children (for every leader file: /metadata has exactly the record groups present in the leader, map_projection iff the file holds such a record), root_children; oracle over 1-8 images x polarisation x scan x summary line order, uncached and through a freshly created cache: node paths and order, per-group pixel identity with the right file, attributes",
             "DataTree.from_dict / set_coords are xarray's", "7 C13"),
@@ -42,8 +42,8 @@ CLAIMED = {
             "the property's attitude clause is false for the code (recorded known finding, test suite pins it); timedelta/strptime are contracts", "7 C17"),
     "C19": ("Lean theorems noninterference (every interleaving, any number of loads), finished_equals_solo, no_deadlock, completes over an interleaving model whose per-load program is the getitem trace; source facts (private handle, per-variable lock) re-read from the AST; deterministic-scheduler oracle enumerating interleavings of real threads",
             "real schedules / GIL / lock implementation only enumerated at filesystem yield points", "7 C19"),
-    "C20": ("Lean theorems blank_int/float/text, no_derived_attribute, padding_inert (dataset summary: records agreeing on live-field bytes give equal output), live_fields_only, field_locality (13 fixed-size layouts); oracle: nullable fields blanked individually and in subsets, padding rewritten with random content",
-            "line records and dynamic-count records: padding inertness by oracle only", "7 C20"),
+    "C20": ("Lean theorems blank_int/float/text, no_derived_attribute, padding_inert + padding_inert_leader_records (dataset summary, radiometric, facility-5, platform-position, map-projection records: records agreeing on live-field bytes give equal output), live_fields_only(2), field_locality (13 fixed-size layouts); oracle: nullable fields blanked individually and in subsets, padding rewritten with random content",
+            "line records, the attitude / data-quality records and the volume directory: padding inertness by oracle only", "7 C20"),
     "C18": ("Lean theorem truncated_image (for arbitrary bytes: short file => error or fewer than n records) and complete_image; truncation/missing-file oracle over every record boundary +-1 x rpc",
             "xarray.Dataset's dimension check and promptness are not proved (measured)", "7 C18"),
 }
